@@ -297,7 +297,7 @@ def run(tier: str, only=None) -> core.Result:
     cfgs += [{"steps": [a, b]} for a in full for b in full]
     if tier == "thorough":
         cfgs += [{"steps": [a, b, c]} for a in red for b in red for c in red]
-    out = explorer.explore(RUN, cfgs)
+    out = explorer.explore(RUN, cfgs, fidelity=True)
     sched.absorb(res, "conversations", RUN, out, cfgs)
     res.coverage["carrier_runs"] = res.coverage["evaluations"] * len(CARRIERS)
     res.coverage["exhaustive"] = True
